@@ -3,6 +3,8 @@ package main
 import (
 	"encoding/json"
 	"fmt"
+	"helm.sh/helm/v4/pkg/action"
+	"helm.sh/helm/v4/pkg/storage/driver"
 	"sort"
 	"strings"
 
@@ -295,7 +297,7 @@ func hasRepeat(g *genDChart) bool {
 func corrDeps(seed uint64, n int, tier string, out string, replay string) {
 	m := StartModel()
 	defer m.Close()
-	rep := NewReport("C11", "deps", seed, "case = dependency tree (depth<=3; charts s/t/u, aliases, the same chart listed twice, unlisted charts; every eighth case a chart listed two or three times under aliases whose own plain dependencies sit behind conditions decided per copy) with conditions (1-2 comma-separated paths) and tags decided by booleans / non-booleans / nothing in chart defaults and user values, nested global tables set at different levels, parent sections under (alias) names; ProcessDependencies + ToRenderValues + engine.Render compared with the model: pruned tree, coalesced values, and the .Values each chart's probe template sees; non-trivial = at least one condition or tag is decided; distinct = hash of chart tree and values")
+	rep := NewReport("C11", "deps", seed, "case = dependency tree (depth<=3; charts s/t/u, aliases, the same chart listed twice, unlisted charts; every eighth case a chart listed two or three times under aliases whose own plain dependencies sit behind conditions decided per copy) with conditions (1-2 comma-separated paths) and tags decided by booleans / non-booleans / nothing in chart defaults and user values, nested global tables set at different levels, parent sections under (alias) names; ProcessDependencies + ToRenderValues + engine.Render compared with the model; for every fourth alias-free tree a real install over the simulated API server with a CRD in every chart (the CRDs created = those of the enabled tree); pruned tree, coalesced values, and the .Values each chart's probe template sees; non-trivial = at least one condition or tag is decided; distinct = hash of chart tree and values")
 	for i := 0; i < n; i++ {
 		r := NewRng(seed, uint64(i))
 		if i%8 == 5 {
@@ -373,6 +375,11 @@ func depsCase(m *Model, rep *Report, g *genDChart, vals map[string]any, nontrivi
 	rep.H("tree-ok")
 	if hasRepeat(g) {
 		rep.H("has-repeated-dependency")
+	}
+	// "a disabled dependency contributes no ... CRDs": a real install of the tree, every chart carrying a CRD of its
+	// own (trees without aliases and repeats, so that a chart's place in the tree names it)
+	if idx%4 == 0 && !hasRepeat(g) && !hasAlias(g) {
+		depsCRDInstall(rep, g, vals, want["ok"], cs, seed, idx)
 	}
 	// values
 	var rv chartutil.Values
@@ -475,4 +482,84 @@ func nestedGlobalsD(g *genDChart, vals map[string]any) bool {
 		return o
 	}
 	return nestedGlobals(conv(g), vals)
+}
+
+func hasAlias(g *genDChart) bool {
+	for _, d := range g.MetaDeps {
+		if d.Alias != "" {
+			return true
+		}
+	}
+	for _, s := range g.Subs {
+		if hasAlias(s) {
+			return true
+		}
+	}
+	return false
+}
+
+// realCRD: the chart tree with one CRD file per chart (named after the chart's place in the tree) and a
+// ConfigMap template
+func (g *genDChart) realCRD(path string) *chart.Chart {
+	c := &chart.Chart{Metadata: &chart.Metadata{Name: g.Name, Version: "0.1.0", APIVersion: "v2"}, Values: deepCopyMap(g.Values)}
+	for _, d := range g.MetaDeps {
+		c.Metadata.Dependencies = append(c.Metadata.Dependencies, &chart.Dependency{Name: d.Name, Alias: d.Alias, Condition: d.condRaw, Tags: append([]string{}, d.Tags...), Version: "0.1.0", Repository: "file://x"})
+	}
+	me := path + g.Name
+	c.Templates = []*chart.File{{Name: "templates/cm.yaml", Data: []byte("apiVersion: v1\nkind: ConfigMap\nmetadata:\n  name: cm-" + me + "\n")}}
+	c.Files = []*chart.File{{Name: "crds/crd.yaml", Data: []byte(fmt.Sprintf(crdDoc, "k"+me+"s", "K"+me, "k"+me+"s"))}}
+	for _, s := range g.Subs {
+		c.AddDependency(s.realCRD(me + "-"))
+	}
+	return c
+}
+
+func depsCRDInstall(rep *Report, g *genDChart, vals map[string]any, tree any, cs map[string]any, seed uint64, idx int) {
+	w := newSimWorld(driver.NewMemory())
+	defer w.close()
+	in := action.NewInstall(w.cfg())
+	in.ReleaseName, in.Namespace, in.DisableOpenAPIValidation = "r", "default", true
+	safely(func() { in.Run(g.realCRD(""), deepCopyMap(vals)) })
+	// the CRDs that reached the cluster
+	got := map[string]bool{}
+	w.api.mu.Lock()
+	for _, ev := range w.api.trace {
+		if i := strings.Index(ev, "customresourcedefinitions/"); i >= 0 && strings.HasPrefix(ev, "POST ") {
+			got[strings.TrimSuffix(ev[i+len("customresourcedefinitions/"):], ".example.com")] = true
+		}
+	}
+	w.api.mu.Unlock()
+	// the CRDs of the enabled tree (the model's)
+	want := map[string]bool{}
+	var walk func(t map[string]any, path string)
+	walk = func(t map[string]any, path string) {
+		me := path + t["name"].(string)
+		want["k"+me+"s"] = true
+		for _, s := range t["subs"].([]any) {
+			walk(s.(map[string]any), me+"-")
+		}
+	}
+	if tm, ok := tree.(map[string]any); ok {
+		walk(tm, "")
+	}
+	rep.H("crd-install")
+	var extra, missing []string
+	for k := range got {
+		if !want[k] {
+			extra = append(extra, k)
+		}
+	}
+	for k := range want {
+		if !got[k] {
+			missing = append(missing, k)
+		}
+	}
+	sort.Strings(extra)
+	sort.Strings(missing)
+	if len(extra) > 0 {
+		rep.Issue(Issue{Kind: "monitor", Fingerprint: "C11:disabled-crds-installed", What: fmt.Sprintf("install created the CRDs of disabled dependencies: %v", extra), Case: cs, Model: sortedKeys(want), Impl: sortedKeys(got), Seed: seed, Index: idx})
+	}
+	if len(missing) > 0 {
+		rep.Issue(Issue{Kind: "monitor", Fingerprint: "C11:enabled-crds-missing", What: fmt.Sprintf("install did not create the CRDs of enabled charts: %v", missing), Case: cs, Model: sortedKeys(want), Impl: sortedKeys(got), Seed: seed, Index: idx})
+	}
 }
